@@ -281,6 +281,10 @@ func runAll(cases <-chan *c20Case, n int, timeout time.Duration, sink func(*c20C
 			for c := range cases {
 				var o c20Outcome
 				o, w = w.run(c, timeout)
+				if o.Hang {
+					// a loaded machine is not a hang: once more, alone in a fresh worker, six times as long
+					o, w = w.run(c, 6*timeout)
+				}
 				mu.Lock()
 				sink(c, o)
 				mu.Unlock()
